@@ -87,9 +87,9 @@ CLAIMED = {
          "DESIGN.md §4 (C15)"),
  "C16": ("StringExp values of up to 3 (4) arbitrary bytes, two-key typed maps with arbitrary 1-2 byte keys under every Go map iteration "
          "order, booleans/null/empty collections and integers below 10^3 (10^4) are encoded by the real EncodeJSON/MarshalJSON; an "
-         "RFC 8259 string decoder in the harness is the oracle. Partial: scalar and collection encoders (call text -> JSON direction).",
-         "Trusted: go/ssa, symgo, z3, the 60-line JSON string decoder. Outside: JSON -> expression (encoding/json), floats, "
-         "BuildCallSource end to end, per-fork invocation files.",
+         "RFC 8259 string decoder in the harness is the oracle. The loop invocation JSON -> BuildCallAst/convertToExp/fixExpressionTypes -> Format -> parse -> BuildDataForAst -> invocation JSON runs on a stage compiled from text (string of up to 2 (3) arbitrary bytes, struct, typed/untyped maps, arrays, array of structs, booleans, null).",
+         "Trusted: go/ssa, symgo, z3, the 60-line JSON string decoder. Outside: split arguments, floats and large integers in the loop, "
+         "per-fork invocation files.",
          "DESIGN.md §4 (C16)"),
  "C10": ("Partial (order-independence of the emitters): every range over a Go map in the executed code picks an arbitrary permutation "
          "(engine-level nondeterminism); map expressions, binding maps, argument maps, metadata listings and job-script environment blocks with "
